@@ -88,6 +88,9 @@ open_("C06", "D9", "C06/stdout@--html-path status", [],
 open_("C16", "D38", "C16/whitespace-reformat-changed-author@large", [],
       "input: a 3000-line file (about 55 KiB, every line attributed to one AI session) converted from LF to CRLF line endings by a person => only 2864 of 3000 lines keep their author (and for multibyte content some returned ranges do not sit on character boundaries): the large-input path of update_attributions is not conservative for whitespace-only reformats",
       "c16.crlf_flip_of_large_file", ["tracker_large_inputs"], affects=[])
+open_("C16", "D61", "C16/unchanged-line-changed-author@split-move-apart", ["C16/moved-block-lost-author@split-move-together", "C16/bounds-update@split-move-multibyte"],
+      "input (explicit texts in vf/witness/c16.py): one contiguous block of 3 lines of session A followed by 3 lines of session C; in one edit session A moves both halves below a run of 14 untouched lines of A, swapped. Landed apart: the untouched line of A right after the landed C half is re-attributed to C. Landed together (C half, then A half): the first line of the A half is attributed to C. The token diff slides the insertion boundary across tokens the moved block shares with its new neighbour, so a line that did not change, or a moved line, is credited to another session (about 5% of such inputs with mixed line prefixes; none with plain lines); with multi-byte line prefixes (é, á, 日本語, 🙂) the slid boundary can land inside a character, so a returned range is not on character boundaries",
+      "c16.split_block_moved_apart_and_together", ["tracker_split_move_slide"], affects=[])
 open_("C16", "D51", "C16/whitespace-reformat-changed-author@unterminated-quote", [],
       "input: line 1 (session C) contains a double quote that is never closed on the line (`# note \"unterminated \\`, likewise `\"é\\\"` whose closing quote is escaped), line 2 belongs to session A; the file is converted from LF to CRLF (or re-indented) by C => line 2 is re-attributed to C (the tokenizer lexes the unterminated literal across the line break, so a whitespace-only change falls inside a non-whitespace token)",
       "c16.eol_flip_after_unterminated_quote", ["tracker_unterminated_quote"], affects=[])
